@@ -196,10 +196,12 @@ func solvLine(m algz.DpSolvers[item], max int) string {
 }
 
 type graphCase struct {
-	n     int
-	und   [][2]int
-	arcs  [][2]int
-	graph *algz.Graph[int]
+	n      int
+	mode   int  // how the graph was built through the public API (see parseGraph)
+	lenBad bool // Graph.Len() differed from the number of vertices after building
+	und    [][2]int
+	arcs   [][2]int
+	graph  *algz.Graph[int]
 }
 
 func parseGraph(ts []string) (*graphCase, bool) {
@@ -211,9 +213,37 @@ func parseGraph(ts []string) (*graphCase, bool) {
 		return nil, false
 	}
 	gc := &graphCase{n: n, graph: &algz.Graph[int]{}}
-	for i := 0; i < n; i++ {
-		gc.graph.AddNode(i)
+	// The same graph is built through the public API in one of four ways, chosen by a hash of
+	// the header (so that a case replays identically and the Lean model, which only sees the
+	// resulting graph, is unaffected):
+	//   0: AddNode for every vertex, then the edges;
+	//   1: Init(n), the edges, then AddNode for every vertex (must keep the neighbours);
+	//   2: zero-value Graph, the edges only (lazyInit / node creation inside AddEdge),
+	//      AddNode only for the isolated vertices;
+	//   3: like 2, every undirected edge as two AddEdge calls (second direction first), and
+	//      every edge added a second time at the end (duplicate edges are idempotent).
+	mode := 0
+	for _, t := range ts {
+		for i := 0; i < len(t); i++ {
+			mode = (mode*31 + int(t[i])) % 1000003
+		}
+		mode = (mode*31 + 7) % 1000003
 	}
+	mode %= 4
+	gc.mode = mode
+	switch mode {
+	case 0:
+		for i := 0; i < n; i++ {
+			gc.graph.AddNode(i)
+		}
+	case 1:
+		gc.graph.Init(n)
+	}
+	type edgeTok struct {
+		a, b int
+		und  bool
+	}
+	var added []edgeTok
 	for _, t := range ts[1:] {
 		sep := "-"
 		if strings.Contains(t, ">") {
@@ -230,11 +260,42 @@ func parseGraph(ts []string) (*graphCase, bool) {
 		}
 		if sep == "-" {
 			gc.und = append(gc.und, [2]int{a, b})
-			gc.graph.AddUndirectedEdge(a, b)
+			if mode == 3 {
+				gc.graph.AddEdge(b, a)
+				gc.graph.AddEdge(a, b)
+			} else {
+				gc.graph.AddUndirectedEdge(a, b)
+			}
 		} else {
 			gc.arcs = append(gc.arcs, [2]int{a, b})
 			gc.graph.AddEdge(a, b)
 		}
+		added = append(added, edgeTok{a, b, sep == "-"})
+	}
+	if mode == 3 {
+		for i := len(added) - 1; i >= 0; i-- {
+			if e := added[i]; e.und {
+				gc.graph.AddUndirectedEdge(e.b, e.a)
+			} else {
+				gc.graph.AddEdge(e.a, e.b)
+			}
+		}
+	}
+	switch mode {
+	case 1:
+		for i := n - 1; i >= 0; i-- {
+			gc.graph.AddNode(i)
+		}
+	case 2, 3:
+		// only the vertices that no AddEdge call created: isolated ones and pure arc targets
+		for i := 0; i < n; i++ {
+			if _, ok := gc.graph.Nodes[i]; !ok {
+				gc.graph.AddNode(i)
+			}
+		}
+	}
+	if gc.graph.Len() != n {
+		gc.lenBad = true
 	}
 	return gc, true
 }
@@ -353,7 +414,10 @@ func impl(c core.Case) []string {
 				if e1 != nil || e2 != nil || seed < 0 {
 					return "bad-op"
 				}
-				s := algz.DpSolvers[int]{}
+				var s algz.DpSolvers[int] // no keys and an odd seed: the nil map
+				if len(keys) > 0 || seed%2 == 0 {
+					s = algz.DpSolvers[int]{}
+				}
 				for _, k := range keys {
 					s[k] = []int{k}
 				}
@@ -392,8 +456,18 @@ func impl(c core.Case) []string {
 				if !ok1 || !ok2 || !ok3 {
 					return "bad-op"
 				}
+				// R with spare capacity (as in GetMaximalCliques), so that append(R, v) writes in
+				// place at every depth; P and X with spare capacity too (X = append(X, v) in place).
+				// The visible parts of the caller's R and P must be unchanged afterwards.
+				R = append(make([]int, 0, len(R)+gc.n+1), R...)
+				P = append(make([]int, 0, len(P)+2), P...)
+				X = append(make([]int, 0, len(X)+len(P)+1), X...)
+				r0, p0 := fmt.Sprint(R), fmt.Sprint(P)
 				cliques := make([][]int, 0, 2)
 				gc.graph.BronKerbosch(R, P, X, &cliques)
+				if fmt.Sprint(R) != r0 || fmt.Sprint(P) != p0 {
+					return showCliques(cliques) + " caller-slices-modified R=" + fmt.Sprint(R) + " P=" + fmt.Sprint(P)
+				}
 				return showCliques(cliques)
 			}
 			return "bad-op"
